@@ -206,6 +206,12 @@ pub mod prelude {
             }
     { it.next() }
 
+    // R19: a truncating `as u16` cast (Verus leaves the result of an out-of-range cast unspecified)
+    #[verifier::external_body]
+    pub fn usize_trunc_u16(x: usize) -> (r: u16)
+        ensures r as int == (x as int) % 65536
+    { x as u16 }
+
     // R9: std::cmp::min, used by ppp on usize only
     #[verifier::external_body]
     pub fn usize_min(a: usize, b: usize) -> (r: usize)
@@ -363,6 +369,24 @@ pub mod prelude {
         }
     }
 
+    /// the first occurrence is found in every prefix that contains it
+    pub broadcast proof fn lemma_first_index_prefix(s: Seq<u8>, k: int, c: u8)
+        requires 0 <= k <= s.len()
+        ensures #[trigger] first_index_of(s.subrange(0, k), c) == (if first_index_of(s, c) < k { first_index_of(s, c) } else { k })
+        decreases s.len()
+    {
+        let p = s.subrange(0, k);
+        if k == 0 {
+        } else if s[0] == c {
+            assert(p[0] == c);
+        } else {
+            let t = s.subrange(1, s.len() as int);
+            lemma_first_index_prefix(t, k - 1, c);
+            assert(p.subrange(1, p.len() as int) =~= t.subrange(0, k - 1));
+            assert(p[0] != c);
+        }
+    }
+
     #[verifier::external_body]
     pub broadcast proof fn axiom_pat_starts_str(s: Seq<u8>, p: &str)
         ensures #[trigger] pat_starts::<&str>(s, p) == is_prefix_of(sb(p), s)
@@ -472,7 +496,7 @@ pub mod prelude {
     }
     pub broadcast group prelude_str_axioms {
         axiom_str_ext_bytes, axiom_str_ext_chars, axiom_str_len_bound, axiom_pat_starts_str, axiom_pat_ends_str,
-        axiom_pat_starts_char, axiom_pat_find_char, axiom_cow_deref_str, lemma_first_index_bounds,
+        axiom_pat_starts_char, axiom_pat_find_char, axiom_cow_deref_str, lemma_first_index_bounds, lemma_first_index_prefix,
         axiom_u16_parse_empty, axiom_slice_len_bound,
     }
     pub broadcast group prelude_utf8_axioms {
